@@ -81,6 +81,7 @@ func RunRetentionCase(seed int64, workDir string) *HistResult {
 	}
 	// an embedding application may run without an output store (the project's own tests do): saves must work all the same
 	noLogs := seed%8 == 5
+	noStore := seed%8 == 6 // (no data store: there are no jobs "from an earlier run" then)
 	var outI taskctl.OutputStore = out
 	if noLogs {
 		outI = nil
@@ -144,7 +145,9 @@ func RunRetentionCase(seed int64, workDir string) *HistResult {
 				pj.Tasks = append(pj.Tasks, store.PersistedTask{Name: tn, Script: []string{"echo"}, Status: map[int]string{0: "done", 1: "waiting", 2: "running", 3: "waiting"}[kind]})
 			}
 			data.Jobs = append(data.Jobs, pj)
-			writeLogs(id.String(), taskNames(p), "old")
+			if !noStore {
+				writeLogs(id.String(), taskNames(p), "old")
+			}
 		}
 	}
 	r.Shuffle(len(data.Jobs), func(a, b int) { data.Jobs[a], data.Jobs[b] = data.Jobs[b], data.Jobs[a] })
@@ -155,7 +158,27 @@ func RunRetentionCase(seed int64, workDir string) *HistResult {
 		return res
 	}
 	rec := &core.RecStore{Inner: js}
-	sys, err := core.NewSys(gen.BuildDefs(specs), rec, outI)
+	// an embedding application may also run without a data store, and a save may fail (disk full): the jobs that the
+	// save removed from the runner are gone from the API either way, so their logs must be gone too
+	failingSaves := seed%8 == 7
+	failed := map[int]bool{}
+	if failingSaves {
+		fr := rand.New(rand.NewSource(seed + 99))
+		rec.Fail = func(n int) error {
+			if n > 1 && fr.Intn(2) == 0 {
+				failed[n] = true
+				return fmt.Errorf("injected: no space left on device")
+			}
+			return nil
+		}
+		res.sit("C12", "saves that fail")
+	}
+	var stI store.DataStore = rec
+	if noStore {
+		stI = nil
+		res.sit("C12", "runner without data store")
+	}
+	sys, err := core.NewSys(gen.BuildDefs(specs), stI, outI)
 	if err != nil {
 		res.Inconclusive = err.Error()
 		return res
@@ -297,9 +320,11 @@ func RunRetentionCase(seed int64, workDir string) *HistResult {
 				}
 			}
 		}
-		// store content == API view
+		// store content == API view (if there is a store and this save reached it)
 		ld, err := js.Load()
-		if err != nil {
+		if noStore || failed[rec.SaveCount()] {
+			res.sit("C12", fmt.Sprintf("save without store effect (noStore=%v failed=%v)", noStore, failed[rec.SaveCount()]))
+		} else if err != nil {
 			find("C12:store-not-loadable-after-save", "%v", err)
 		} else {
 			inStore := map[string]bool{}
@@ -358,7 +383,9 @@ func RunRetentionCase(seed int64, workDir string) *HistResult {
 	}
 	js2, _ := store.NewJSONDataStore(dataDir)
 	sys2, err := core.NewSys(gen.BuildDefs(curSpecs), js2, outI)
-	if err == nil {
+	if err == nil && (noStore || failed[rec.SaveCount()]) {
+		sys2.Close()
+	} else if err == nil {
 		v2 := sys2.Snapshot(-1)
 		if len(v2.Jobs) != len(finalIDs) {
 			find("C12:restart-disagrees-with-api", "after the last save the API reported %d jobs, a runner restarted on the store reports %d", len(finalIDs), len(v2.Jobs))
